@@ -620,6 +620,7 @@ type c19H struct {
 	counts  map[string]int64
 	outcome map[string]int64
 	cur     []atomic.Pointer[c19Running]
+	ws      []*c19W // per-worker state, reused across phases (keeps CLI batch buffers warm)
 	infoMu  sync.Mutex
 	info    map[string][]any
 }
@@ -669,11 +670,15 @@ func (h *c19H) par(phase string, n int, fn func(w *c19W, i int)) {
 	var next atomic.Int64
 	var wg sync.WaitGroup
 	nw := min(h.workers, max(n, 1))
+	for len(h.ws) < nw {
+		h.ws = append(h.ws, &c19W{h: h, id: len(h.ws), batches: map[string]*c19Batch{}})
+	}
 	for k := 0; k < nw; k++ {
 		wg.Add(1)
 		go func(k int) {
 			defer wg.Done()
-			w := &c19W{h: h, id: k, counts: map[string]int64{}, outcome: map[string]int64{}, batches: map[string]*c19Batch{}}
+			w := h.ws[k]
+			w.evals, w.counts, w.outcome = 0, map[string]int64{}, map[string]int64{}
 			for {
 				i := int(next.Add(1) - 1)
 				if i >= n {
@@ -758,7 +763,7 @@ func (w *c19W) cliAdd(tool string, frame, want []byte, art c19Art) {
 	b.cases = append(b.cases, c19BatchCase{b.frames.Len(), len(frame), b.want.Len(), len(want), art})
 	b.frames.Write(frame)
 	b.want.Write(want)
-	if b.frames.Len()+b.want.Len() > 24<<20 || len(b.cases) >= 20000 {
+	if b.frames.Len()+b.want.Len() > 6<<20 || len(b.cases) >= 20000 {
 		b.flush(w)
 	}
 }
@@ -2047,7 +2052,11 @@ func TestVerifC19(t *testing.T) {
 	go h.watchdog(10 * time.Minute)
 	// live heap is small and garbage is large (codec writers/readers): collect
 	// rarely so the codecs' sync.Pools are not emptied every few milliseconds.
-	debug.SetGCPercent(400)
+	gogc := 400
+	if g := os.Getenv("VERIF_C19_GOGC"); g != "" { // tuning aid
+		fmt.Sscan(g, &gogc)
+	}
+	debug.SetGCPercent(gogc)
 
 	r.Rule("Phase A (production maximum): every byte string of length <=2, and run / period-2 / period-3 / counter / LCG-noise payloads of lengths 0-4, 15-17, 255-257, 65535-65537, 1 MiB, through DefaultCompressor for every codec x every level the libraries accept plus out-of-range levels; every codec preference list (length <=3 with repetition, all permutations of 4 and 5) x flag lists incl. CompressDisableZstd; xerial-framed snappy built by hand (chunk splits x two chunk encoders x header variants). Each output is decoded by both DefaultDecompressor variants (no pool / user byte pool) and by an independent decoder (stdlib gzip + hand-checked trailer, hand-written snappy block decoder, hand-written LZ4 frame decoder with xxh32 checksums, separately configured zstd decoder, and the zstd / lz4 / gzip CLIs over concatenated frames). Phase B (maxDecompressedSize shrunk to 1 MiB): every byte string of length <=2 (thorough <=3) raw and embedded after each codec's magic / header forms; every truncation and every single-byte substitution {00,01,7f,80,ff} (all 256 values near both ends) of valid outputs incl. xerial; crafted headers claiming huge sizes and real bombs, run sequentially with TotalAlloc measured. distinct_nontrivial counts distinct compressed outputs that round-tripped, distinct preference-list x flag combinations, distinct xerial frames, mutated bases, crafts, and distinct (codec, decompressor, family, outcome) classes of hostile inputs.")
 	r.Assume(
